@@ -2459,6 +2459,9 @@ class Interp:
             except TypeError as e:
                 raise _host_exc(e)
         if name in ("hash", "id"):
+            probe = self.mod.world.__dict__.get("hash_probe")
+            if name == "hash" and probe is not None:
+                probe.append(type(args[0]).__name__)
             return id(args[0]) if name == "id" or isinstance(args[0], Obj) else hash(args[0])
         if name == "type":
             v = args[0]
